@@ -65,6 +65,11 @@ type inst struct {
 	recvTV     map[*ast.SelectorExpr]types.TypeAndValue
 	recvShared map[*ast.SelectorExpr]bool
 	recvLocal  map[*ast.SelectorExpr]bool
+	// variables that are assigned, incremented or have their address taken somewhere in the
+	// file (candidates for being shared through a closure), and the stack of enclosing
+	// function literals during rewriting
+	mutated  map[*types.Var]bool
+	litStack []*ast.FuncLit
 }
 
 // analysis holds whole-module facts computed before any rewriting.
@@ -212,6 +217,9 @@ func (in *inst) doFile(f *ast.File, fn string) error {
 	in.recvTV = map[*ast.SelectorExpr]types.TypeAndValue{}
 	in.recvShared = map[*ast.SelectorExpr]bool{}
 	in.recvLocal = map[*ast.SelectorExpr]bool{}
+	in.mutated = map[*types.Var]bool{}
+	in.litStack = nil
+	in.collectMutated(f)
 
 	in.concFile = false
 	ast.Inspect(f, func(n ast.Node) bool {
@@ -404,6 +412,103 @@ func (in *inst) sharedVar(id *ast.Ident) *types.Var {
 	return v
 }
 
+// collectMutated records every local variable that is written after its declaration
+// (assignment, ++/--, op-assign, range assignment, copy/delete/clear target) or whose address
+// is taken. A variable captured by a function literal can only carry a race or cross-talk
+// between goroutines if it is in this set; captured variables that are never written again
+// (receivers, constants-in-effect) are left alone.
+func (in *inst) collectMutated(f *ast.File) {
+	mark := func(e ast.Expr) {
+		var id *ast.Ident
+		switch x := rootOf(e).(type) {
+		case *ast.Ident:
+			id = x
+		case *ast.SelectorExpr:
+			if i, ok := x.X.(*ast.Ident); ok {
+				id = i
+			}
+		}
+		if id == nil {
+			return
+		}
+		if v, ok := in.info.Uses[id].(*types.Var); ok && !v.IsField() {
+			in.mutated[v] = true
+		}
+	}
+	ast.Inspect(f, func(n ast.Node) bool {
+		switch x := n.(type) {
+		case *ast.AssignStmt:
+			if x.Tok != token.DEFINE {
+				for _, l := range x.Lhs {
+					mark(l)
+				}
+			} else {
+				// a := in a define that re-assigns an existing variable
+				for _, l := range x.Lhs {
+					if id, ok := l.(*ast.Ident); ok {
+						if _, isDef := in.info.Defs[id]; !isDef || in.info.Defs[id] == nil {
+							mark(l)
+						}
+					}
+				}
+			}
+		case *ast.IncDecStmt:
+			mark(x.X)
+		case *ast.RangeStmt:
+			if x.Tok == token.ASSIGN {
+				if x.Key != nil {
+					mark(x.Key)
+				}
+				if x.Value != nil {
+					mark(x.Value)
+				}
+			}
+		case *ast.UnaryExpr:
+			if x.Op == token.AND {
+				mark(x.X)
+			}
+		case *ast.CallExpr:
+			if id, ok := x.Fun.(*ast.Ident); ok && len(x.Args) > 0 {
+				if _, isB := in.info.Uses[id].(*types.Builtin); isB {
+					switch id.Name {
+					case "copy", "delete", "clear":
+						mark(x.Args[0])
+					}
+				}
+			}
+		}
+		return true
+	})
+}
+
+// capturedVar reports the variable id refers to if it is a local variable declared outside
+// the innermost enclosing function literal (i.e. shared with the code that created the
+// closure, possibly with other goroutines) and written somewhere after its declaration.
+func (in *inst) capturedVar(id *ast.Ident) *types.Var {
+	if len(in.litStack) == 0 {
+		return nil
+	}
+	v, ok := in.info.Uses[id].(*types.Var)
+	if !ok || v.IsField() || v.Pkg() == nil || v.Parent() == v.Pkg().Scope() {
+		return nil
+	}
+	if !in.mutated[v] {
+		return nil
+	}
+	lit := in.litStack[len(in.litStack)-1]
+	if v.Pos() >= lit.Pos() && v.Pos() < lit.End() {
+		return nil
+	}
+	// sync primitives and typed atomics are handled through their methods
+	if n, ok := v.Type().(*types.Named); ok && n.Obj().Pkg() != nil {
+		switch n.Obj().Pkg().Path() {
+		case "sync", "sync/atomic":
+			return nil
+		}
+	}
+	return v
+}
+
 func rootOf(e ast.Expr) ast.Expr {
 	for {
 		switch x := e.(type) {
@@ -516,6 +621,8 @@ func (t tickKey) End() token.Pos {
 func (in *inst) rewriteBody(body *ast.BlockStmt) {
 	pre := func(c *astutil.Cursor) bool {
 		switch n := c.Node().(type) {
+		case *ast.FuncLit:
+			in.litStack = append(in.litStack, n)
 		case *ast.SelectStmt:
 			for _, cl := range n.Body.List {
 				cc := cl.(*ast.CommClause)
@@ -585,6 +692,9 @@ func (in *inst) rewriteBody(body *ast.BlockStmt) {
 			in.addTick(n.Body, "loop", n)
 		case *ast.FuncLit:
 			in.addTick(n.Body, "func", n)
+			if k := len(in.litStack); k > 0 && in.litStack[k-1] == n {
+				in.litStack = in.litStack[:k-1]
+			}
 		case *ast.LabeledStmt:
 			// goto targets that are not loops get a tick of their own
 		case *ast.SelectStmt:
@@ -619,6 +729,18 @@ func (in *inst) rewriteBody(body *ast.BlockStmt) {
 				if u, ok := c.Parent().(*ast.UnaryExpr); ok && u.Op == token.AND && in.noShared[u] {
 					return true
 				}
+				c.Replace(in.wrapShared(n, n, in.writeRoots[n]))
+				return true
+			}
+			if v := in.capturedVar(n); v != nil {
+				if u, ok := c.Parent().(*ast.UnaryExpr); ok && u.Op == token.AND && in.noShared[u] {
+					return true
+				}
+				// definitions and pure declarations are not uses
+				if _, isDef := in.info.Defs[n]; isDef {
+					return true
+				}
+				in.rep.Counts["captured"]++
 				c.Replace(in.wrapShared(n, n, in.writeRoots[n]))
 			}
 		}
